@@ -77,7 +77,7 @@ func (p *Peer) Close() {
 // process or of another one (a proxy under test, a peer) can be given the same port while the case runs —
 // with listen-and-close a proxy was once handed the "refused" port and dialled itself.
 func FreeAddr() string {
-	fd, err := syscall.Socket(syscall.AF_INET, syscall.SOCK_STREAM, 0)
+	fd, err := syscall.Socket(syscall.AF_INET, syscall.SOCK_STREAM|syscall.SOCK_CLOEXEC, 0)
 	if err != nil {
 		return freeAddrFallback()
 	}
@@ -112,7 +112,7 @@ var (
 // when the dialler's own time limit or context does.  The socket and the connections filling its queue live until the
 // process ends.
 func Blackhole() (string, error) {
-	fd, err := syscall.Socket(syscall.AF_INET, syscall.SOCK_STREAM, 0)
+	fd, err := syscall.Socket(syscall.AF_INET, syscall.SOCK_STREAM|syscall.SOCK_CLOEXEC, 0)
 	if err != nil {
 		return "", err
 	}
